@@ -276,8 +276,9 @@ class FileSystem(object):
             elif _convert(passthrough) == path:
                 return path
 
-        # Remove leading '/' if any
-        path = path.lstrip(path_sep)
+        # Remove leading '/' if any: a path is relative to the root of the
+        # sandbox, and '..' cannot climb above it
+        path = os.path.normpath(path_sep + path).lstrip(path_sep)
 
         base_path = os.path.abspath(_convert(self.base_path))
         out_path = os.path.join(base_path, path)
